@@ -1,6 +1,7 @@
 package world
 
 import (
+	coreda "github.com/evstack/ev-node/core/da"
 	"bytes"
 	"context"
 	"crypto/rand"
@@ -236,6 +237,9 @@ type Node struct {
 	DB     *Bcast[*types.Data]
 	HStore *P2PStore[*types.SignedHeader]
 	DStore *P2PStore[*types.Data]
+	// DAOverride, when set, is what the node talks to instead of the world's DA double (e.g. the JSON-RPC client
+	// logic in front of it).
+	DAOverride coreda.DA
 	Root   string
 	Cfg    config.Config
 	Starts int
@@ -307,7 +311,11 @@ func (n *Node) Start(ctx context.Context) (err error) {
 		}
 	}()
 	n.KV.Probe, n.Exec.Probe = nil, nil
-	m, e := block.NewManager(ctx, sg, n.Cfg, n.W.Genesis, n.Store, n.Exec, n.Seq, n.W.DA,
+	var dalayer coreda.DA = n.W.DA
+	if n.DAOverride != nil {
+		dalayer = n.DAOverride
+	}
+	m, e := block.NewManager(ctx, sg, n.Cfg, n.W.Genesis, n.Store, n.Exec, n.Seq, dalayer,
 		logging.Logger("verif-"+n.Opts.Name), n.HStore, n.DStore, n.HB, n.DB, block.NopMetrics(), 1.0, 1.5, block.DefaultManagerOptions())
 	if e != nil {
 		n.M = nil
